@@ -346,7 +346,26 @@ def check(repo: Repo, run: Run) -> None:
     ex = c7.func("C7NContext.__exit__")
     sx = summ.get("C7NContext.__exit__")
     rets = [n for n in ast.walk(ex) if isinstance(n, ast.Return) and n.value is not None and not (isinstance(n.value, ast.Constant) and not n.value.value)]
+    stale = None
     if sx is None or sx == "?":
+        # `C7N = self.<field>`: where does the field come from?  A field captured from the global outside __enter__
+        # (at construction) is whatever was installed when the object was built, not when it was entered
+        me_x = ex.args.args[0].arg if ex.args.args else "self"
+        for a in ast.walk(ex):
+            if isinstance(a, ast.Assign) and any(isinstance(t, ast.Name) and t.id == "C7N" for t in a.targets):
+                v = strip_cast(a.value)
+                if isinstance(v, ast.Attribute) and isinstance(v.value, ast.Name) and v.value.id == me_x:
+                    for mname, m in class_methods(c7.cls("C7NContext")).items():
+                        m_me = m.args.args[0].arg if m.args.args else "self"
+                        for b in ast.walk(m):
+                            if isinstance(b, ast.Assign) and any(isinstance(t, ast.Attribute) and t.attr == v.attr and isinstance(t.value, ast.Name) and t.value.id == m_me for t in b.targets) \
+                                    and any(isinstance(x, ast.Name) and x.id == "C7N" for x in ast.walk(b.value)) and mname != "__enter__":
+                                stale = (v.attr, mname)
+    if stale is not None:
+        run.ob("C17.X1", "C7NContext.__exit__|clears", False,
+               f"__exit__ sets C7N back to self.{stale[0]}, which {stale[1]} captured from the global when the object was built: a context constructed while another filter is installed and entered later "
+               "re-installs that stale filter on exit, so the context is not cleared after the evaluation (also after a failing one)", c7.loc(ex))
+    elif sx is None or sx == "?":
         run.inconclusive("C17.X1", "C7NContext.__exit__|clears", "the value __exit__ leaves in C7N could not be determined")
     else:
         run.ob("C17.X1", "C7NContext.__exit__|clears", sx == "None", f"__exit__ leaves C7N = {fmt_summary(sx)}; it must set it back to None on every path before returning", c7.loc(ex))
